@@ -16,13 +16,15 @@ echo "repo-tests-failing-packages=$tests"
 tier=${SEED_TIER:-quick}
 # run from a scratch copy of /verif so that evidence and replay files of these runs do not land in /verif
 SCR=/tmp/verif-seedrun
-mkdir -p $SCR && rsync -a --delete --exclude .git --exclude evidence --exclude replays --exclude seeded /verif/ $SCR/
+mkdir -p $SCR && rm -rf $SCR/replays && rsync -a --delete --exclude .git --exclude evidence --exclude replays --exclude seeded /verif/ $SCR/
 for id in "$@"; do
   out=$(VERIF_NOSHRINK=${VERIF_NOSHRINK:-1} $SCR/run.sh $id $tier 2>&1); rc=$?
   nviol=$(echo "$out" | grep -c "^VIOLATION")
   sum=$(echo "$out" | grep -E "^$id $tier:" | tail -1 | sed 's/.*failing_items/failing_items/')
   case $rc in
-    1) echo "$id DETECTED ($nviol violation lines; $sum)"; echo "$out" | grep -m2 -A2 "^violation:" | cut -c1-400 ;;
+    1) echo "$id DETECTED ($nviol violation lines; $sum)"; echo "$out" | grep -m2 -A2 "^violation:" | cut -c1-400
+       # keep one witness next to a seeded change (a regression test for TestReplays)
+       case "$patch" in /verif/seeded/*) f=$(ls $SCR/replays/$id/*.json 2>/dev/null | head -1); [ -n "$f" ] && [ $(stat -c %s "$f") -lt 200000 ] && cp "$f" "$(dirname $patch)/replay-$id.json";; esac ;;
     0) echo "$id missed ($sum)" ;;
     *) echo "$id harness-error rc=$rc"; echo "$out" | grep -m3 "HARNESS ERROR" | cut -c1-300 ;;
   esac
